@@ -9,3 +9,6 @@ import TsVerif.C05.Props
 #print axioms TsVerif.C05.matchAll_complete
 #print axioms TsVerif.C05.matchAll_complete_qfree
 #print axioms TsVerif.C05.matchAll_nodup
+#print axioms TsVerif.C05.count_Seq
+#print axioms TsVerif.C05.count_SatItem
+#print axioms TsVerif.C05.capture_count_within_quantifier
